@@ -63,8 +63,7 @@ class Gen:
     def decorate(self, node, allow_fail=True, force_fail=None):
         rng, p = self.rng, self.p
         if rng.random() < p['p_literal'] and node['kind'] == 'plain':
-            lits = [x for x in LITERALS if x is not None] if 'cand' in self.flags[node['id']] \
-                and self.hostile != 'candidate_none' else LITERALS
+            lits = LITERALS
             node['plan']['ret'] = ['lit', rng.choice(lits)]
         will_fail = force_fail if force_fail is not None else (allow_fail and rng.random() < p['p_fail'])
         retry = None
@@ -208,8 +207,9 @@ class Gen:
         if reuse is None:
             dn['plan']['labels'] = list(labels)
         if reuse is None and self.hostile == 'switch_unknown_label' and 'switch_unknown_label' not in self.injected:
+            unknown = rng.choice(['ZZZ', 'ZZZ', None, 0, ''])      # a label no case declares (incl. None / falsy)
             dn['plan']['labels'] = list(labels) + ['ZZZ']
-            dn['plan']['label_by_input'] = {str(rng.choice(self.p['inputs'])): 'ZZZ'}
+            dn['plan']['label_by_input'] = {str(rng.choice(self.p['inputs'])): unknown}
             self.injected.add('switch_unknown_label')
         if reuse is None:
             self.finish(dn)
@@ -231,6 +231,9 @@ class Gen:
             c = self.make(list(visible), depth - 1, in_rec=in_rec, in_cand=True, role='cand')
             cands.append(c)
             visible.append(c)
+            if rng.random() < self.p.get('p_cand_falsy', 0.12) and self.nodes[c]['kind'] == 'plain':
+                # a candidate whose legitimate value is None / falsy still wins its one-of
+                self.nodes[c]['plan']['ret'] = ['lit', rng.choice([None, None, 0, '', False, []])]
             # make early candidates fail often so that fallbacks are exercised
             node = self.nodes[c]
             if i < n - 1 and rng.random() < 0.6 and not node['plan'].get('fail'):
